@@ -352,7 +352,8 @@ Definition stop_clause (t : potr) (o : pop) (ob : pobs) : bool :=
       let k0 := getp (unquiet t) p in
       let t1 := fold_left pev evs (setp (unquiet t) p {| pt_rank := pt_rank k0; pt_stop_called := true; pt_stop_ok := pt_stop_ok k0;
                                                           pt_quiet := false; pt_alive := pt_alive k0 |}) in
-      negb (forallb task_done (po_tasks t)) || (dur <=? 0) || (0 <? count_true (parked (po_clock t1)) (po_workers t1))
+      negb (forallb task_settled (po_tasks t)) || (dur <=? 0) || (0 <? count_true (parked (po_clock t1)) (po_workers t1))
+      || (U64MAX <? po_clock t + dur)
   | _, _ => true
   end.
 
